@@ -5,6 +5,9 @@
 From Eino Require Import Base.Util Model.Concat Model.ConcatMsg.
 From Eino Require Import Proofs.Concat Proofs.ConcatRechunk Proofs.ConcatMsg.
 
+Section User.
+Context {U : UserFn} {L : UserLaw}.
+
 Definition cell (ma : list (option msg)) (i : nat) : list msg :=
   match nth_error ma i with Some (Some m) => [m] | _ => [] end.
 
@@ -139,3 +142,5 @@ Theorem msglist_stream_rechunk xs ys : xs <> [] -> rechunk_strict msglist_stream
 Proof.
   intros Hne. apply rechunk_strict_of; auto using msglist_stream_no_panic, msglist_stream_rechunk_weak.
 Qed.
+
+End User.
